@@ -263,3 +263,88 @@ func checkGetAll(w *World, r *Report, rule string, roots []*ssa.Function) {
 		}
 	}
 }
+
+// checkVerbatim (rule C12.verbatim): InitGenesis passes what the genesis carries on as it is. No field of the
+// GenesisState parameter, or of a local copy of (part of) it, is assigned in InitGenesis: import must not fill in,
+// reset or normalise values - whatever it changes is lost or altered by an export/import cycle.
+func checkVerbatim(w *World, r *Report, rule string, inits []*ssa.Function) {
+	var fns []*ssa.Function
+	for fn := range w.CG().Reach(inits) {
+		if w.isProdFunc(fn) {
+			fns = append(fns, fn)
+		}
+	}
+	sort.Slice(fns, func(i, j int) bool { return fns[i].String() < fns[j].String() })
+	for _, fn := range fns {
+		var gs *ssa.Parameter
+		for _, p := range fn.Params {
+			if strings.HasSuffix(typeString(p.Type()), "types.GenesisState") && strings.Contains(typeString(p.Type()), modPath) {
+				gs = p
+			}
+		}
+		if gs == nil {
+			continue
+		}
+		fromGenesis := func(v ssa.Value) bool {
+			for i := 0; i < 8; i++ {
+				switch x := v.(type) {
+				case *ssa.Parameter:
+					return x == gs
+				case *ssa.Field:
+					v = x.X
+				case *ssa.FieldAddr:
+					v = x.X
+				case *ssa.UnOp:
+					v = x.X
+				case *ssa.Alloc:
+					// the spill slot of the parameter
+					for _, ref := range *x.Referrers() {
+						if st, ok := ref.(*ssa.Store); ok && st.Addr == ssa.Value(x) && st.Val == ssa.Value(gs) {
+							return true
+						}
+					}
+					return false
+				default:
+					return false
+				}
+			}
+			return false
+		}
+		copies := map[*ssa.Alloc]bool{}
+		for _, b := range fn.Blocks {
+			for _, in := range b.Instrs {
+				if st, ok := in.(*ssa.Store); ok {
+					if al, isAl := st.Addr.(*ssa.Alloc); isAl {
+						if st.Val == ssa.Value(gs) || fromGenesis(st.Val) {
+							copies[al] = true
+						}
+					}
+				}
+			}
+		}
+		n := 0
+		for _, fs := range FieldStores(fn) {
+			root := fs.FA.X
+			for i := 0; i < 6; i++ {
+				if fa, ok := root.(*ssa.FieldAddr); ok {
+					root = fa.X
+				} else {
+					break
+				}
+			}
+			al, isAl := root.(*ssa.Alloc)
+			if !isAl || !copies[al] {
+				continue
+			}
+			n++
+			name := fs.Field
+			if fs.Struct != nil {
+				name = fs.Struct.Obj().Name() + "." + fs.Field
+			}
+			r.Bad(rule, fmt.Sprintf("%s: assignment to imported %s #%d", funcName(fn), name, n), w.Pos(fs.Store.Pos()), "InitGenesis assigns a field of the genesis data it imports (a default, a reset or a normalisation): a state exported by the running chain is not restored as it was")
+		}
+		if n == 0 {
+			r.OK(rule, funcName(fn)+": genesis data is stored as given", w.Pos(fn.Pos()), "no field of the GenesisState parameter or of a copy of its parts is assigned")
+		}
+	}
+}
